@@ -94,6 +94,16 @@ def build_conn(b, seed, params=None):
                     cidseq[d] += 1
                 elif k == "done":
                     out += Q.f_handshake_done()
+                elif k == "fin0":       # FIN-only STREAM frame: no data, offset = what the stream has carried so far
+                    sid = rng.choice([0, 4, 8])
+                    out += Q.f_stream(sid, b"", off=soff.get((d, sid), 0) or None, fin=True, with_len=rng.random() < 0.7 or i < len(fr) - 1, w=w)
+                elif k == "nst" and d == "c":
+                    out += Q.f_ping()   # (clients send no post-handshake CRYPTO data in QUIC v1 without client authentication)
+                elif k == "nst":        # post-handshake CRYPTO data of the 1-RTT space (e.g. a NewSessionTicket), offsets continue per direction
+                    body = hs_msg(4, c.g(rng.choice([40, 180])))
+                    o = soff.get((d, "crypto1rtt"), 0)
+                    soff[(d, "crypto1rtt")] = o + len(body)
+                    out += Q.f_crypto(o, body, w=w)
         return out, sdata, cdata
 
     lvl = {"I": "i", "H": "h", "Z": "z", "A": "a"}
@@ -172,7 +182,7 @@ def run_quic(b, seed, params=None, opts=(), flow=None, trace=False, extra_dgrams
             from wire.l2l4 import Endpoint, Flow
             fl2 = Flow(Endpoint(fl.client.mac, fl.client.ip, fl.client.port + 7), fl.server)
         cap = udp_capture([((fl2 if mig is not None and i >= mig and g.packets and all(m["level"] == "a" for m in g.packets) else fl), g.d, g.payload, g)
-                           for i, g in enumerate(c.dgrams)], cap=Capture(ts0=1_700_000_000_000_000 + seed % 999_983, step=1009))
+                           for i, g in enumerate(c.dgrams)], cap=Capture(ts0=1_700_000_000_000_000 + seed % 999_983, step=(params or {}).get("ts_step") or 1009))
     finally:
         _l.VARIATION.clear()
     if (params or {}).get("ts_equal"):      # a coarse capture clock: a datagram may carry exactly the time of the previous one when that one travelled
@@ -197,7 +207,13 @@ def run_quic(b, seed, params=None, opts=(), flow=None, trace=False, extra_dgrams
         #  sees after the Retry -- a stray datagram there costs the connection; observed, outside the listed properties)
         retry_at = [i for i, g in enumerate(c.dgrams) if g.note == "RETRY"]
         ok_pos = [k for k in range(1, len(pk) + 1) if not (retry_at and k == retry_at[0] + 1)]
-        ins = sorted(((rn.choice(ok_pos), d, mk) for d, mk in (("s", vn), ("s", vn), ("c", other), ("c", lambda: bytes([0x40, 1, 2])))), key=lambda x: -x[0])
+        runt_s = lambda: bytes([0x40 | rn.getrandbits(6)]) + bytes(rn.getrandbits(8) for _ in range(len(c.cid["c"]) + rn.choice([5, 12, 17, 19])))
+        runt_c = lambda: bytes([0x40 | rn.getrandbits(6)]) + bytes(rn.getrandbits(8) for _ in range(len(c.cid["s"]) + rn.choice([4, 9, 18, 20])))
+        # (runts with a short header: too short for a full header-protection sample -- DCID + 4 + 16 bytes -- or just long enough)
+        members = [("s", vn), ("s", vn), ("c", other), ("c", lambda: bytes([0x40, 1, 2]))]
+        if (params or {}).get("own_noise") == "runts":      # random short-header runts unmask to a random key phase: half of them are the
+            members += [("s", runt_s), ("c", runt_c)]       # documented deviation "noise with the other phase" -- only for checks that do not judge content
+        ins = sorted(((rn.choice(ok_pos), d, mk) for d, mk in members), key=lambda x: -x[0])
         for k, d, mk in ins:
             pk.insert(k, (cap.pkts[k - 1][0] + 3, _uf(fl, d, mk())))
     res = runner.run_inproc(pcapng_bytes(pk), "\n".join(c.keylog) + "\n", opts=list(opts), trace=trace)
